@@ -327,3 +327,5 @@ def run(ctx, res):
         logs += l
         crashes += c
     judge(ctx, res, logs, crashes)
+    # a POST whose request context has already ended is answered like any other (scripted probe)
+    C.run_probes(res, "C18", ["bridge-dead-context-post"])
